@@ -16,10 +16,14 @@ Theorem c01_generic D tol xs :
 Proof.
   intros Hok Hc Hw. split.
   - unfold rt_ok in Hok. destruct (as_pairs (d_bursts D)) as [t|] eqn:Et; [|discriminate].
-    pose proof (as_pairs_table _ _ Et) as Eb. unfold rt_ok_t in Hok.
-    repeat match type of Hok with (_ && _ = true) => let H := fresh "H" in apply andb_true_iff in Hok as [Hok H] end.
-    apply len_ok_sound in H4.
-    destruct (fields_durations_pairs (d_msb D) t xs H4) as [syms [Efd _]].
+    pose proof (as_pairs_table _ _ Et) as Eb.
+    assert (List.length t = 2 \/ List.length t = 4 \/ List.length t = 16)%nat as Hl.
+    { destruct (PyIR.Engine.ParseM.is_manchester t).
+      - unfold rtM_ok_t in Hok. destruct t as [|[m s] [|[s' m'] [|q r]]]; try discriminate. left; reflexivity.
+      - unfold rt_ok_t in Hok.
+        repeat match type of Hok with (_ && _ = true) => let H := fresh "H" in apply andb_true_iff in Hok as [Hok H] end.
+        apply len_ok_sound. assumption. }
+    destruct (fields_durations_pairs (d_msb D) t xs Hl) as [syms [Efd _]].
     cbn [render_part pos_durations bind]. rewrite Eb, Efd. cbn [bind]. eexists. reflexivity.
   - intros frame ds Hr Hp. eapply base_decode_roundtrip; eauto.
 Qed.
